@@ -84,7 +84,9 @@ func (u *Unit) merge(base *State, states []*State) *State {
 	for i, s := range live {
 		delta := and(s.pc[n:]...)
 		g := u.c.fresh("g", "Bool")
-		out.assume(eq(g, delta))
+		// (=> g delta) suffices (one of the guards is asserted to hold) and keeps quantified facts of the branch in
+		// positive polarity, which the solvers handle far better than an equivalence
+		out.assume(implies(g, delta))
 		guards[i] = g
 	}
 	out.assume(or(guards...))
